@@ -358,13 +358,15 @@ def rhs_obligations():
     for name, (rel, fn) in sorted(defs.items()):
         if not (name.startswith('_d') and name.endswith('_')):
             continue
-        p0 = params_of(fn)[0]
-        sites = [(l, w) for (l, w) in summaries[name].mutates.get(p0, []) if '.shape = ' not in w]
-        out.append(Ob('frame-rhs:%s:%s' % (name, p0), '%s:%s' % (rel, name), 'frame', 'refuted' if sites else 'discharged',
-                      backend='frame / may-alias analysis over the AST (all inputs)', seconds=0.0,
-                      detail='; '.join('line %d: %s' % x for x in sites[:3]), site='%s:%s line %d' % (rel, name, sites[0][0] if sites else fn.lineno),
-                      witness=dict(parameter=p0, sites=[dict(line=l, what=w) for l, w in sites[:5]]) if sites else None, engine='E2',
-                      replay_note='flow analysis: state vector %s' % ('may be written' if sites else 'is only read')))
+        # the state vector AND every extra argument (they are the caller's objects handed through odeint's `args`: degree arrays,
+        # rate functions, index maps ...) are only read
+        for i, p0 in enumerate(params_of(fn)):
+            sites = [(l, w) for (l, w) in summaries[name].mutates.get(p0, []) if '.shape = ' not in w]
+            out.append(Ob('frame-rhs:%s:%s' % (name, p0), '%s:%s' % (rel, name), 'frame', 'refuted' if sites else 'discharged',
+                          backend='frame / may-alias analysis over the AST (all inputs)', seconds=0.0,
+                          detail='; '.join('line %d: %s' % x for x in sites[:3]), site='%s:%s line %d' % (rel, name, sites[0][0] if sites else fn.lineno),
+                          witness=dict(parameter=p0, sites=[dict(line=l, what=w) for l, w in sites[:5]]) if sites else None, engine='E2',
+                          replay_note='flow analysis: %s %s' % ('state vector' if i == 0 else 'argument ' + p0, 'may be written' if sites else 'is only read')))
     return out
 
 
